@@ -156,7 +156,12 @@ def _chi2_case(ctx, c):
     before = _snap(A, b, sq)
     try:
         o = computechi2(b, sq, A)
-        impl = {'acoeff': o.acoeff, 'chi2': float(o.chi2), 'yfit': o.yfit, 'dof': int(o.dof), 'covar': o.covar, 'var': o.var}
+        # the attributes are computed lazily: the answer must not depend on the order in which they are read
+        order = ['acoeff', 'chi2', 'yfit', 'dof', 'covar', 'var']
+        np.random.RandomState(c['gen']['nseed'] % (2 ** 31)).shuffle(order)
+        got = {k: getattr(o, k) for k in order}
+        impl = {'acoeff': got['acoeff'], 'chi2': float(got['chi2']), 'yfit': got['yfit'], 'dof': int(got['dof']), 'covar': got['covar'], 'var': got['var']}
+        ctx.count('chi2:first-read=' + order[0])
     except Exception as e:
         impl = {'err': core.exc_kind(e)}
     ctx.seen(c)
@@ -657,7 +662,7 @@ def _hmf_solve(ctx, cases=None):
                 'nseed': ctx.rng.getrandbits(32), 'K': K, 'N': ctx.rng.randrange(4 * K + 4, 28), 'M': ctx.rng.randrange(3 * K + 3, 26),
                 'noise': ctx.rng.choice([0.02, 0.1]), 'pmask': ctx.rng.choice([0.0, 0.1, 0.2]), 'nonneg': nn,
                 'eps': ctx.rng.choice([None, None, 0.0, 1.0, 50.0]), 'n_iter': ctx.rng.choice([1, 2, 3, 5]),
-                'seed': ctx.rng.randrange(0, 10000)}})
+                'seed': ctx.rng.choice([0, 0, 1, ctx.rng.randrange(0, 10000), ctx.rng.randrange(0, 10000)])}})
     _run_stream(ctx, _hmf_solve_case, cases)
 
 
